@@ -637,78 +637,37 @@ fn md_events(text: &str) -> Option<Vec<MdEv>> {
     Some(out)
 }
 
-/// The contract of C02_markdown_glue (Model/C02Markdown.v: md_contractb), evaluated on the real event stream,
-/// independently of the model: a shadow run of the loop's bookkeeping (cursor, covered_until, tag stack) — the violated
-/// clauses.  Since 8b26ba4 order and disjointness of the events are enforced by the code (the guard), not assumed.
-fn md_contract_violations(text: &str, evs: &[MdEv], ilt: bool) -> Vec<String> {
+/// The contract of C02_markdown_glue (Model/C02Markdown.v: md_contractb / ev_ok), evaluated on the real event stream,
+/// independently of the model: the violated clauses.  Since 8b26ba4 / b736ef8 the code enforces the order of the events
+/// itself; the contract is a property of every event on its own (range on char boundaries, payload fits its own range).
+fn md_contract_violations(text: &str, evs: &[MdEv]) -> Vec<String> {
     let mut bad = vec![];
-    let mut tb = 0usize;
-    let mut cu = 0usize;
-    let mut lastend: Option<usize> = None;
-    let mut stack: Vec<usize> = vec![]; // tag codes, top last
-    let prose = |t: usize| matches!(t, 0 | 2 | 3 | 4 | 5 | 6 | 7) || (t == 1 && !ilt);
     for (i, e) in evs.iter().enumerate() {
         let name = MD_EV_NAMES[e.code as usize];
         if !text.is_char_boundary(e.rs) {
             bad.push(format!("K1 event {i} ({name}) starts at byte {}: out of the source or off a char boundary", e.rs));
-            break; // the cursor is undefined from here on
+            continue;
         }
-        tb = tb.max(e.rs);
-        let tc = text[..tb].chars().count();
-        if let Some(x) = lastend {
-            cu = cu.max(x);
+        if !matches!(e.code, 3..=7) {
+            continue;
         }
-        let leaf = matches!(e.code, 3..=7);
-        if leaf && tc < cu {
-            continue; // skipped by the guard
+        if !(e.rs <= e.re && text.is_char_boundary(e.re)) {
+            bad.push(format!("K1 leaf event {i} ({name}) has the range {}..{}: reversed, out of the source or off a char boundary", e.rs, e.re));
+            continue;
         }
-        if e.code == 6 && !(e.rs <= e.re && text.is_char_boundary(e.re)) {
-            bad.push(format!("K1 Text event {i} has the range {}..{}: reversed, out of the source or off a char boundary", e.rs, e.re));
-            break;
-        }
-        let claim: Option<usize> = match e.code {
-            3 | 4 => Some(1),
-            5 => (e.n != 0).then_some(e.n),
-            7 => Some(e.n),
-            6 => {
-                let cl = e.n.min(text[e.rs..e.re].chars().count());
-                let pushes = match stack.last() {
-                    None => true,
-                    Some(8) | Some(1) => true,
-                    Some(t) => prose(*t),
-                };
-                (cl != 0 && pushes).then_some(cl)
-            }
+        let have = text[e.rs..e.re].chars().count();
+        let need = match e.code {
+            3 | 4 => Some(1usize),
+            5 | 7 => Some(e.n),
             _ => None,
         };
-        if let Some(n) = claim {
-            // structural marker of finding FC02c: the event lies BEHIND the cursor (a repeat the covered_until guard missed)
-            let behind = if e.rs < tb { " [event starts before the cursor]" } else { "" };
-            if !(tb <= e.re && text.is_char_boundary(e.re)) {
-                bad.push(format!("K3 leaf event {i} ({name}) with the range {}..{} ends before the cursor {tb} (or off a char boundary){behind}", e.rs, e.re));
-                break;
-            }
-            let have = text[tb..e.re].chars().count();
+        if let Some(n) = need {
             if n > have {
-                bad.push(format!("K3 leaf event {i} ({name}) claims {n} characters, the source between the cursor {tb} and its range end {} holds {have}{behind}", e.re));
-            }
-            if n == 0 {
-                bad.push(format!("K3 leaf event {i} ({name}) has an empty payload: a zero-width Unlintable token"));
+                bad.push(format!("K3 leaf event {i} ({name}) claims {n} characters, its source range {}..{} holds {have}", e.rs, e.re));
             }
         }
-        let ext = match (e.code, e.n) {
-            (0, 9) | (1, _) => Some(tc),
-            _ => claim.map(|n| tc + n),
-        };
-        if ext.is_some() {
-            lastend = ext;
-        }
-        match e.code {
-            0 => stack.push(e.n),
-            1 | 2 => {
-                stack.pop();
-            }
-            _ => {}
+        if e.code == 7 && e.n == 0 {
+            bad.push(format!("K3 leaf event {i} (html) has an empty payload: a zero-width Unlintable token"));
         }
     }
     bad
@@ -724,7 +683,7 @@ fn case_markdown(rep: &mut Report, text: &str, ilt: bool, dict: &Arc<FstDictiona
         return;
     };
     // ---- the hypothesis of C02_markdown_glue, monitored on every generated document
-    let bad = md_contract_violations(text, &evs, ilt);
+    let bad = md_contract_violations(text, &evs);
     rep.monitor("md_event_streams_checked", 1);
     rep.monitor("md_events_checked", evs.len() as u64);
     rep.monitor("md_contract_violations", bad.len() as u64);
@@ -736,7 +695,7 @@ fn case_markdown(rep: &mut Report, text: &str, ilt: bool, dict: &Arc<FstDictiona
         rep.count("md_doc_with_clamped_text_event(F27 shape)");
     }
     // the shapes of the repaired findings FC02a (an empty Code / Math payload: skipped since a37d1cc) and FC02b (a leaf
-    // event that exactly repeats an earlier one: skipped by the covered_until guard since 8b26ba4) — distribution only
+    // event that exactly repeats an earlier one: skipped by the covered_until / behind_cursor guard since 8b26ba4 / b736ef8) — distribution only
     let empty_math = evs.iter().any(|e| e.code == 5 && e.n == 0);
     let repeated = evs.iter().enumerate().any(|(i, e)| matches!(e.code, 3..=7) && e.re > e.rs && evs[..i].iter().any(|p| p.code == e.code && p.n == e.n && p.rs == e.rs && p.re == e.re));
     let mark = |_class: &str, m: &str| -> String { m.to_string() };
